@@ -227,11 +227,35 @@ def xsInit (n : Nat) (cells0 : List Exon) : Heap × Slice := (Heap.init ++ [cell
 
 def xsRun (st : Heap × Slice) (ops : List XsOp) : Heap × Slice := ops.foldl xsApply st
 
+/-- histories with a second variable `held`: besides the steps on `s`, `held = s` — the idiom
+    `held := s; s = s[:0]; s, err = s.Add(…)`, where the receiver is empty and its spare capacity
+    is the array `held` still reads -/
+inductive XhOp
+  | op (o : XsOp)     -- a step on `s`
+  | hold              -- `held = s`
+
+/-- state: (heap, `s`) and `held` -/
+def xhApply (st : (Heap × Slice) × Slice) : XhOp → (Heap × Slice) × Slice
+  | .op o => (xsApply st.1 o, st.2)
+  | .hold => (st.1, st.1.2)
+
+/-- `var held Exons` (nil) next to `s` as in `xsInit` -/
+def xhInit (n : Nat) (cells0 : List Exon) : (Heap × Slice) × Slice := (xsInit n cells0, Slice.nil)
+
+def xhRun (st : (Heap × Slice) × Slice) (ops : List XhOp) : (Heap × Slice) × Slice := ops.foldl xhApply st
+
 /-- one step of a history on a transcript `t` -/
 inductive TxOp
   | set (xs : List Exon)       -- `err := t.SetExons(xs...)`
   | addDrop (xs : List Exon)   -- `_, err := t.Exons().Add(xs...)`
   | addSet (xs : List Exon)    -- `r, err := t.Exons().Add(xs...); if err == nil { err = t.SetExons(r...) }`
+  | resliceAdd (j : Nat) (xs : List Exon)
+                               -- `ex := t.Exons(); _, err := ex[:min(j, cap(ex))].Add(xs...)`; `j = 0` is the
+                               -- reset idiom `t.Exons()[:0].Add(…)`: an empty receiver whose spare capacity
+                               -- is the transcript's live exon array
+
+/-- `s[:min(j, cap(s))]` -/
+def resliceTo (h : Heap) (s : Slice) (j : Nat) : Slice := { s with len := min j (cap h s) }
 
 def txApply (st : Heap × Tx) : TxOp → (Heap × Tx) × Option Err
   | .set xs =>
@@ -246,6 +270,9 @@ def txApply (st : Heap × Tx) : TxOp → (Heap × Tx) × Option Err
     | (h', r, none) =>
       match setExons h' st.2 (read h' r) with
       | (h'', t', e) => ((h'', t'), e)
+  | .resliceAdd j xs =>
+    match add st.1 (resliceTo st.1 st.2.exons j) xs with
+    | (h', _, e) => ((h', st.2), e)
 
 def txInit (id : Nat) : Heap × Tx := (Heap.init, { id := id, exons := Slice.nil })
 
